@@ -582,6 +582,10 @@ func runPlanS(def *PropDef, p *Plan, scratch string) *RunResult {
 		}
 	}
 	res.Digest = r.digest
+	res.Diverged = s.Diverged()
+	if os.Getenv("VSIM_TRACE") != "" {
+		res.Trace = append([]int32(nil), trace...)
+	}
 	tr := trace
 	if len(tr) > 60 {
 		tr = tr[:60]
